@@ -24,6 +24,8 @@ Hypothesis Hnn : inst_nonneg_b i = true.
 Variable J : state -> Prop.
 Variable Q : list transition -> state -> Prop.
 Variable side : transition -> state -> bool.
+(* what is known of an offer in the state it was computed in *)
+Variable OK : state -> transition -> Prop.
 
 Hypothesis J_apply : forall x tr R x', NO x -> J x -> Q (tr :: R) x -> is_transition_valid x tr = Ok true ->
   apply_transition sigma i x tr = Ok x' -> J x' /\ Q R x' /\ side tr x' = true.
@@ -31,8 +33,8 @@ Hypothesis J_now : forall x t, J x -> (s_now x <= t)%Z -> J (set_now x t).
 Hypothesis Q_timed : forall x timed poss tele, NO x -> J x -> create_timed_transitions i x = Ok timed ->
   get_possible_transitions i x = Ok poss -> filter_teleport i x poss = Ok tele -> Q (timed ++ tele) x.
 Hypothesis Q_timed0 : forall x timed, NO x -> J x -> create_timed_transitions i x = Ok timed -> Q timed x.
-Hypothesis Q_offer : forall x o, J x -> not_transit o -> Q [o] x.
-Hypothesis offers_not_transit : forall x offers, get_possible_transitions i x = Ok offers -> Forall not_transit offers.
+Hypothesis Q_offer : forall x o, J x -> OK x o -> Q [o] x.
+Hypothesis offers_ok : forall x offers, get_possible_transitions i x = Ok offers -> Forall (OK x) offers.
 
 Definition sidesJ (lg : mlog) : Prop := forall tr y, In (tr, y) lg -> side tr y = true.
 Definition all_J (lg : mlog) : Prop := forall tr y, In (tr, y) lg -> NO y /\ J y.
@@ -72,7 +74,7 @@ Proof.
 Qed.
 
 Definition result_J (lg : mlog) (x' : state) (offers : list transition) : Prop :=
-  all_J lg /\ sidesJ lg /\ Forall not_transit offers
+  all_J lg /\ sidesJ lg /\ Forall (OK x') offers
   /\ exists xq, NO xq /\ J xq /\ (x' = xq \/ (offers = [] /\ exists z, x' = set_now xq z)).
 
 Lemma loop_exit_PQ x x' offers lg lg' :
@@ -91,7 +93,7 @@ Proof.
       (split; [exact L|]); (split; [exact S|]); (split; [constructor|]); exists x; (split; [exact N|]); (split; [exact F|]);
       [right; eauto|left; reflexivity].
   - destruct (get_possible_transitions i x) as [offs|] eqn:Eo; [|discriminate]. injection H as E1 E2 E3. subst x' offers lg'.
-    split; [exact L|]. split; [exact S|]. split; [eapply offers_not_transit; eauto|].
+    split; [exact L|]. split; [exact S|]. split; [eapply offers_ok; eauto|].
     exists x. split; [exact N|]. split; [exact F|]. left; reflexivity.
 Qed.
 
@@ -145,7 +147,7 @@ Lemma sorted_single o : sorted_by_transport [o] = [o].
 Proof. unfold sorted_by_transport. simpl. destruct (is_transport_new o); reflexivity. Qed.
 
 Theorem mw_step_PQ fuel r m a r' m' lg :
-  NO (r_x r) -> J (r_x r) -> Forall not_transit (r_offers r) -> mw_step sigma i fuel r m a = MOk r' m' lg ->
+  NO (r_x r) -> J (r_x r) -> Forall (OK (r_x r)) (r_offers r) -> mw_step sigma i fuel r m a = MOk r' m' lg ->
   result_J lg (r_x r') (r_offers r').
 Proof.
   intros N F HO H. unfold mw_step in H.
@@ -168,7 +170,7 @@ Qed.
 (* every run of the middleware satisfies the side condition on all its micro-logs *)
 Theorem reach_reachG fuel x0 joker0 ta r m :
   NO x0 -> J x0 -> reach sigma i fuel x0 joker0 ta r m ->
-  reachG sigma i side fuel x0 joker0 ta r m /\ Forall not_transit (r_offers r)
+  reachG sigma i side fuel x0 joker0 ta r m /\ Forall (OK (r_x r)) (r_offers r)
   /\ exists xq, NO xq /\ J xq /\ (r_x r = xq \/ (r_offers r = [] /\ exists z, r_x r = set_now xq z)).
 Proof.
   intros N F H. induction H as [r m lg H|r m a r' m' lg H IH Hm].
